@@ -440,6 +440,14 @@ pub fn exec_line(line: &str) -> String {
     let op = toks[0].to_string();
     let suite = toks[1].to_string();
     let a = A(parse_args(&toks[2..]));
+    if op == "ext_verify" {
+        let r = std::panic::catch_unwind(std::panic::AssertUnwindSafe(|| ext_verify(&suite, &a)));
+        return match r {
+            Ok(Some(s)) => s,
+            Ok(None) => "bad-op".into(),
+            Err(_) => "panic".into(),
+        };
+    }
     let r = std::panic::catch_unwind(std::panic::AssertUnwindSafe(|| match suite.as_str() {
         "toy31" => exec::<crate::toy::Toy31>(&op, &a),
         "toy16" => exec::<crate::toy::Toy16>(&op, &a),
@@ -463,4 +471,43 @@ pub fn exec_line(line: &str) -> String {
             if msg.contains("tape exhausted") { "tape-exhausted".into() } else { "panic".into() }
         }
     }
+}
+
+/// Third-party single-signer verifiers on serialized bytes:
+/// ed25519-dalek `verify_strict` (RFC 8032 strict) and libsecp256k1 `verify_schnorr` (BIP-340).
+/// args: vk=<serialized verifying key> msg=<hex> sig=<serialized signature>
+fn ext_verify(suite: &str, a: &A) -> Option<String> {
+    let vk = unhx(a.get("vk")?)?;
+    let msg = unhx(a.get("msg")?)?;
+    let sig = unhx(a.get("sig")?)?;
+    Some(match suite {
+        "ed25519" => {
+            let vkb: [u8; 32] = vk.as_slice().try_into().ok()?;
+            let sgb: [u8; 64] = sig.as_slice().try_into().ok()?;
+            match ed25519_dalek::VerifyingKey::from_bytes(&vkb) {
+                Ok(k) => match k.verify_strict(&msg, &ed25519_dalek::Signature::from_bytes(&sgb)) {
+                    Ok(()) => "ok".into(),
+                    Err(_) => "err ExtInvalid culprits=".into(),
+                },
+                Err(_) => "err ExtBadKey culprits=".into(),
+            }
+        }
+        "secp256k1-tr" => {
+            // vk is the 33-byte SEC1 key; BIP-340 uses its x-only form
+            if vk.len() != 33 || sig.len() != 64 {
+                return Some("err ExtBadLength culprits=".into());
+            }
+            let secp = secp256k1::Secp256k1::verification_only();
+            let xonly = match secp256k1::XOnlyPublicKey::from_byte_array(vk[1..].try_into().ok()?) {
+                Ok(k) => k,
+                Err(_) => return Some("err ExtBadKey culprits=".into()),
+            };
+            let s = secp256k1::schnorr::Signature::from_byte_array(sig.as_slice().try_into().ok()?);
+            match secp.verify_schnorr(&s, &msg, &xonly) {
+                Ok(()) => "ok".into(),
+                Err(_) => "err ExtInvalid culprits=".into(),
+            }
+        }
+        _ => "ok none".into(),
+    })
 }
